@@ -709,7 +709,8 @@ func (p *Printer) wordPart(wp, next WordPart) {
 			switch {
 			case len(name) > 1 && !ValidName(name): // ${10}
 			case ValidName(name + litCont): // ${var}cont
-			case litCont == "\\" && strings.HasPrefix(next.(*Lit).Value, "\\\n"):
+			case litCont == "\\" && strings.HasPrefix(next.(*Lit).Value, "\\\n"),
+				next != nil && next.Pos().Line() > wp.End().Line():
 				// ${var}\<newline>cont; the line continuation would glue cont to the name
 			default:
 				x2 := *wp
